@@ -204,6 +204,8 @@ class Check:
             c = {'kind': kind, 'params': C.gen_params(rnd, kind)}
             if rnd.random() < 0.5:
                 c['mode'] = 'batch'
+            elif rnd.random() < 0.3:
+                c['reuse_buffers'] = True
             if rnd.random() < 0.3:
                 c['share'] = rnd.randrange(100)      # its parameter arrays are caller-owned buffers too
             consumers.append(c)
